@@ -34,6 +34,9 @@ def h5_digest(path, exclude=('metadata',), only=None):
                 h.update(v)
             else:
                 a = np.asarray(v)
+                # the integer width chosen for index arrays is representation, not result
+                if a.dtype.kind in 'iu':
+                    a = a.astype(np.int64)
                 h.update(str(a.shape).encode() + str(a.dtype).encode())
                 h.update(a.tobytes() if a.dtype != object else repr(a.tolist()).encode())
     with h5py.File(path, 'r') as f:
